@@ -467,6 +467,48 @@ void run_c11(const std::vector<std::vector<std::string>>& cases, vt::Rng& rng)
    }
 }
 
+// ---- C03 -------------------------------------------------------------------------------
+// case line: <id> <signs mu M1 M2 as +/- string> <tb low|mid|high|huge> <spec light|heavy|compressed|split> <conv 0|1>
+void run_c03(const std::vector<std::vector<std::string>>& cases, vt::Rng& rng)
+{
+   for (const auto& c : cases) {
+      const std::string& id = c.at(0);
+      const std::string &sg = c.at(1), &tbc = c.at(2), &spec = c.at(3);
+      const bool conv = c.at(4) == "1";
+      MssmPt p = spec == "light" ? vm::random_mssm(rng, 80, 400, 1, 100) : spec == "heavy" ? vm::random_mssm(rng, 1000, 10000, 1, 100)
+               : spec == "compressed" ? vm::random_mssm(rng, 300, 330, 1, 100) : vm::random_mssm(rng, 50, 10000, 1, 100);
+      p.TB = tbc == "low" ? rng.uni(1, 3) : tbc == "mid" ? rng.uni(3, 30) : tbc == "high" ? rng.uni(30, 60) : rng.uni(60, 100);
+      p.Mu = std::fabs(p.Mu) * (sg[0] == '-' ? -1 : 1);
+      p.M1 = std::fabs(p.M1) * (sg[1] == '-' ? -1 : 1);
+      p.M2 = std::fabs(p.M2) * (sg[2] == '-' ? -1 : 1);
+      p.Ae[1] = rng.uni(-1e4, 1e4) * (spec == "light" ? 0.03 : 1);
+      const std::string sig = "mssm/" + sg + "/" + tbc + "/" + spec + (conv ? "/conv" : "/tree");
+      MSSMNoFV_onshell m;
+      std::string exc = vm::exc_class([&] {
+         vm::apply(m, p);
+         m.calculate_masses();
+         if (conv) {
+            // use the spectrum as pole masses and convert back (resummed muon Yukawa coupling in Ye(1,1))
+            m.get_physical().MSvmL = m.get_MSvmL(); m.get_physical().MSm = m.get_MSm(); m.get_physical().MChi = m.get_MChi();
+            m.get_physical().MCha = m.get_MCha(); m.get_physical().MAh = m.get_MAh();
+            m.convert_to_onshell();
+         }
+      });
+      vt::Ev ev("OneLoop");
+      ev.str("model", "mssm").str("case", id).str("sig", sig).str("exc", exc);
+      if (exc.empty()) {
+         NV v;
+         v.push_back({"gY", m.get_gY()}); v.push_back({"g2", m.get_g2()}); v.push_back({"ymu", m.get_Ye(1, 1)}); v.push_back({"MM", m.get_MM()});
+         vm::push_cmat(v, "ZN", m.get_ZN()); vm::push_cmat(v, "UM", m.get_UM()); vm::push_cmat(v, "UP", m.get_UP());
+         vm::push_mat(v, "USm", m.get_USm()); vm::push_mat(v, "MChi", m.get_MChi()); vm::push_mat(v, "MCha", m.get_MCha());
+         vm::push_mat(v, "MSm", m.get_MSm()); v.push_back({"MSvmL", m.get_MSvmL()});
+         v.push_back({"aChi0", amu1LChi0(m)}); v.push_back({"aChipm", amu1LChipm(m)}); v.push_back({"a1L", calculate_amu_1loop(m)});
+         ev.b("problem", m.get_problems().have_problem()).raw("o", vm::named_json(v));
+      }
+      ev.emit();
+   }
+}
+
 } // namespace
 
 int main(int argc, char** argv)
@@ -483,6 +525,7 @@ int main(int argc, char** argv)
    else if (mode == "c04") run_c04(cases, rng);
    else if (mode == "c05") run_c05(cases, rng);
    else if (mode == "c11") run_c11(cases, rng);
+   else if (mode == "c03") run_c03(cases, rng);
    else { std::fprintf(stderr, "unknown mode %s\n", mode.c_str()); return 2; }
    vt::flush_trace();
    return 0;
